@@ -79,6 +79,8 @@ func ExecPlan(p *Plan, pool *Pool, verbose bool) (t *core.Trace) {
 	w.Run()
 	if p.Profile == "compose" {
 		t.Samples = append(t.Samples, describeComposePlan(p))
+	} else if len(p.Steps) > 0 && p.Steps[0].Op == SEnum {
+		t.Samples = append(t.Samples, describeEnumPlan(p))
 	} else {
 		t.Samples = append(t.Samples, describePlan(p))
 	}
